@@ -274,8 +274,13 @@ class Process(StateMachine, persistence.Savable, metaclass=ProcessStateMachineMe
 
         """
         process = cast(Process, super().recreate_from(saved_state, load_context))
-        call_with_super_check(process.init)
+        process._run_init()
         return process
+
+    def _run_init(self) -> None:
+        # Like every other hook, ``init`` runs with this process being the current one
+        with self._process_scope():
+            super()._run_init()
 
     def __init__(
         self,
